@@ -52,7 +52,7 @@ impl<T: Copy> RationalResampler<T> {
             Self {
                 interp: i64::try_from(interp)?,
                 deci: i64::try_from(deci)?,
-                counter: 0,
+                counter: i64::try_from(interp)?,
                 src,
                 dst,
             },
@@ -76,18 +76,21 @@ impl<T: Copy> Block for RationalResampler<T> {
         let mut opos = 0;
         let mut taken = 0;
         let mut out_full = false;
+        // `counter > 0` means the current sample still owes output samples.
+        // If the output fills up before they are all written, the sample is
+        // left in the input and finished in the next call.
         'outer: for s in i.iter() {
-            taken += 1;
-            self.counter += self.interp;
             while self.counter > 0 {
-                o.slice()[opos] = *s;
-                self.counter -= self.deci;
-                opos += 1;
                 if opos == o.len() {
                     out_full = true;
                     break 'outer;
                 }
+                o.slice()[opos] = *s;
+                self.counter -= self.deci;
+                opos += 1;
             }
+            taken += 1;
+            self.counter += self.interp;
         }
         i.consume(taken);
         o.produce(opos, &[]);
